@@ -210,7 +210,30 @@ def strategy():
     @st.composite
     def gen(draw):
         b = _B12(draw, st, "c12")
-        plan = b.plan()
+        if draw(st.integers(0, 5)) == 0:
+            # "start moving to the next position while the run is being closed": a status created inside a run, the
+            # close_run, and only then the wait for its group (optionally a second run afterwards)
+            g1, g2 = b.group(), b.group()
+            nodes = [M("open_run", None, tag="r0"), M("checkpoint")]
+            if draw(st.booleans()):
+                nodes += b.point(None)
+            nodes.append(M("set", draw(st.sampled_from(plangen.MOTORS)), float(draw(st.integers(-3, 3))) / 2, group=g1))
+            if draw(st.booleans()):
+                nodes.append(M("trigger", draw(st.sampled_from(plangen.DETS)), group=g2))
+            else:
+                g2 = None
+            nodes += b.filler()
+            nodes.append(M("close_run"))
+            nodes += b.filler()
+            for g in draw(st.permutations([g for g in (g1, g2) if g])):
+                nodes.append(M("wait", None, group=g))
+                nodes += b.filler(1)
+            nodes += [M("sleep", None, draw(st.sampled_from([0.0, 0.2, 1.0])))]
+            if draw(st.booleans()):
+                nodes += [M("open_run", None, tag="r1"), M("checkpoint")] + b.point(None) + [M("close_run")]
+            plan = SEQ(*nodes)
+        else:
+            plan = b.plan()
 
         def pol():
             return draw(st.sampled_from(POLICIES)), draw(st.integers(0, 3)) == 0
@@ -483,6 +506,16 @@ def oracle(case, obs, res):
             res.fail("failed_status_thrown_more_than_once", f"{dev}.{op} status failure ({exc!r}) thrown at yields {T}", **feats)
         # did the wait on the group end (by another failure) before this status finished?
         wait_ended_early = k is not None and ys[k].get("ledger_after") is not None and D >= ys[k]["ledger_after"]
+        if wait_ended_early and "resp" in ys[k]:
+            # the wait for the group *returned* (it was not ended by an exception) although this status of the group
+            # had not finished: the failure can then no longer reach the plan at or before that wait
+            res.fail(
+                "wait_returned_before_status_finished",
+                f"wait(group={g!r}) at yield {k} returned {ys[k]['resp']!r} while the {dev}.{op} status of yield {i} was still "
+                f"pending; it failed later (thrown at yields {T or 'nowhere'})",
+                **feats,
+            )
+            continue
         if wait_ended_early:
             res.classes.append("status:finished_after_its_wait_was_ended")
             if T:
